@@ -905,6 +905,9 @@ func init() {
 	core.Register(&core.Profile{Property: "C02", Name: "engine", Weight: 2, Cfg: cfgEngine,
 		Run: runLifecycle(lcParams{focus: "C02", stops: true, crashes: true, lifeCrashes: true, children: true}),
 		Doc: base + "with stop/poison callers and crash/restart; oracle: Receive intervals of one actor never overlap and each access to actor state is ordered after the previous one (vector clocks)"})
+	core.Register(&core.Profile{Property: "C02", Name: "engine-budget", Weight: 1, Cfg: cfgEngine,
+		Run: runLifecycle(lcParams{focus: "C02", stops: true, crashes: true, lifeCrashes: true, exceed: true}),
+		Doc: base + "as 'engine', with one actor driven beyond its restart budget (also while the restart buffer is replayed, with a backlog larger than the batch): no second worker may appear for an actor that is going down"})
 	core.Register(&core.Profile{Property: "C03", Name: "engine", Weight: 1, Cfg: cfgEngine,
 		Run: runLifecycle(lcParams{focus: "C03"}),
 		Doc: base + "stop-free and crash-free; oracle: at quiescence every send that produced no dead letter has been delivered"})
